@@ -71,6 +71,8 @@ func NewChannel(
 		readLoopDone: make(chan struct{}),
 		closeOnce:    &sync.Once{},
 
+		readLoopExited: &atomic.Bool{},
+
 		Q:    util.NewQueue(),
 		Errs: make(chan error),
 
@@ -117,7 +119,7 @@ type Channel struct {
 
 	Q              *util.Queue
 	Errs           chan error
-	readLoopExited atomic.Bool
+	readLoopExited *atomic.Bool
 
 	ChannelLog io.Writer
 }
@@ -147,7 +149,9 @@ func (c *Channel) Open() (reterr error) {
 	c.done = make(chan struct{})
 	c.readLoopDone = make(chan struct{})
 	c.closeOnce = &sync.Once{}
-	c.readLoopExited.Store(false)
+	// a flag of its own for this open's read loop: the loop of a previous open may only now be
+	// getting round to reporting that it has exited
+	c.readLoopExited = &atomic.Bool{}
 
 	go c.read()
 
